@@ -123,6 +123,11 @@ theorem gfP_is_prime_field (a b : GFp) (ha : a.v < Bn256.p) (hb : b.v < Bn256.p)
   ⟨dec_add a b ha hb, dec_sub a b ha hb, dec_neg a ha, dec_mul a b ha hb, dec_inv a ha, dec_zero, dec_one,
    dec_injective a b ha hb⟩
 
+/-- over that field gfP2 = F_p[i]/(i²+1) is a field too (p ≡ 3 mod 4, so the norm x² + y² of a non-zero element
+is non-zero): gfP2.Invert inverts EVERY non-zero element -/
+theorem gfP2_over_Fp_is_field (a : Fp2 (ZMod Bn256.p)) (ha : a ≠ 0) :
+    Bn256.p % 4 = 3 ∧ a * Fp2.invert a = 1 := ⟨p_mod_four, fp2_invert_all a ha⟩
+
 /-! ## 3. the interpreted assembly (regenerated listing of gfp.s) -/
 
 /-- **gfpAdd**: for EVERY machine state (registers, flags, memory, aliasing of c/a/b) whose
